@@ -18,6 +18,7 @@ logger = Log(__name__)
 logger.debug("loading module")
 from amoco.ui import render
 import operator
+from copy import copy
 
 
 # decorators:
@@ -944,7 +945,12 @@ class reg(exp):
 
     def eval(self, env):
         r = env[self]
-        r.sf = self.sf
+        if r.sf != self.sf:
+            # the value is read with this register's sign flag, but the
+            # object held by the map (or shared with another occurence of
+            # the register) keeps its own:
+            r = copy(r)
+            r.sf = self.sf
         return r
 
     def addr(self, env):
